@@ -70,12 +70,12 @@ def run_script(params, ch):
     viol = []
     got = bytearray()
     try:
-        d.call('connect', 2.0)
+        d.call('connect', 10.0)
         peer.accept()
         sent = 0
 
         def read_once():
-            r = d.call('bulk_read', rsize, 2.0)
+            r = d.call('bulk_read', rsize, 10.0)
             if not isinstance(r, (bytes, bytearray)) or not 1 <= len(r) <= rsize:
                 viol.append({'msg': 'bulk_read(%d) returned %r bytes (%s) while %d were pending' % (rsize, len(r) if hasattr(r, '__len__') else r, type(r).__name__, sent - len(got))})
                 if not r:
@@ -110,7 +110,7 @@ def run_script(params, ch):
                 viol.append({'msg': 'TcpTimeoutException after %.4f s with a timeout of 0.05 s' % (time.monotonic() - t0)})
         # transport -> peer
         out = stream[:min(len(stream), 70000)] or b'z'
-        n = d.call('bulk_write', out, 2.0)
+        n = d.call('bulk_write', out, 10.0)
         if n is None or not 1 <= n <= len(out):
             viol.append({'msg': 'bulk_write of %d bytes reported %r' % (len(out), n)})
         else:
@@ -121,12 +121,12 @@ def run_script(params, ch):
         d.call('close')
         d.call('close')
         peer.close_conn()
-        d.call('connect', 2.0)
+        d.call('connect', 10.0)
         peer.accept()
         peer.write(b'fresh')
         r = b''
         while len(r) < 5:
-            r += d.call('bulk_read', 64, 2.0)
+            r += d.call('bulk_read', 64, 10.0)
         if r != b'fresh':
             viol.append({'msg': 'after close/connect the transport read %r, the new connection carried b"fresh"' % (r,)})
     except Exception as e:  # pylint: disable=broad-except
@@ -145,13 +145,13 @@ def run_timeout(params, ch):
     d = Drv(kind, peer.port)
     viol = []
     try:
-        d.call('connect', 2.0)
+        d.call('connect', 10.0)
         peer.accept()
         if params['prefix']:
             peer.write(b'p' * params['prefix'])
             r = b''
             while len(r) < params['prefix']:
-                r += d.call('bulk_read', 4096, 2.0)
+                r += d.call('bulk_read', 4096, 10.0)
         for i in range(params['repeat']):
             t0 = time.monotonic()
             try:
@@ -165,7 +165,7 @@ def run_timeout(params, ch):
         peer.write(late)
         r = b''
         while len(r) < len(late):
-            x = d.call('bulk_read', params['rsize'], 2.0)
+            x = d.call('bulk_read', params['rsize'], 10.0)
             if not x:
                 viol.append({'msg': 'empty read while the late write is pending'})
                 break
@@ -186,9 +186,9 @@ PUSH = {'small': 100 * 1024, 'big': 1024 * 1024}
 
 
 def session_ops(size):
-    return [('connect', {'transport_timeout_s': 1.0, 'read_timeout_s': 20.0}), ('shell', 'c', {'decode': False, 'transport_timeout_s': 1.0}), ('list', '/d', {'transport_timeout_s': 1.0}),
-            ('push', ('bytes', scen.push_data(size)), '/g', {'mtime': 7, 'transport_timeout_s': 1.0, 'read_timeout_s': 20.0}), ('pull', '/f', 'bytesio', {'transport_timeout_s': 1.0}),
-            ('stat', '/f', {'transport_timeout_s': 1.0})]
+    return [('connect', {'transport_timeout_s': 5.0, 'read_timeout_s': 60.0}), ('shell', 'c', {'decode': False, 'transport_timeout_s': 5.0}), ('list', '/d', {'transport_timeout_s': 5.0}),
+            ('push', ('bytes', scen.push_data(size)), '/g', {'mtime': 7, 'transport_timeout_s': 5.0, 'read_timeout_s': 60.0}), ('pull', '/f', 'bytesio', {'transport_timeout_s': 5.0}),
+            ('stat', '/f', {'transport_timeout_s': 5.0})]
 
 
 def session_cfg():
@@ -223,12 +223,12 @@ def run_tcp_session(params, ch):
     try:
         if kind == 'sync':
             from adb_shell.adb_device import AdbDeviceTcp
-            dev = AdbDeviceTcp('127.0.0.1', srv.port, default_transport_timeout_s=1.0, banner=b'verif')
+            dev = AdbDeviceTcp('127.0.0.1', srv.port, default_transport_timeout_s=5.0, banner=b'verif')
             run = lambda f: f()
         else:
             from adb_shell.adb_device_async import AdbDeviceTcpAsync
             loop = asyncio.new_event_loop()
-            dev = AdbDeviceTcpAsync('127.0.0.1', srv.port, default_transport_timeout_s=1.0, banner=b'verif')
+            dev = AdbDeviceTcpAsync('127.0.0.1', srv.port, default_transport_timeout_s=5.0, banner=b'verif')
             run = lambda f: loop.run_until_complete(f())
         for op in session_ops(size):
             name, kw = op[0], dict(op[-1])
@@ -314,5 +314,5 @@ def parts(tier):
     out.append(Part('empty-pipe-timeouts', sc, run_timeout, what='timed-out reads followed by a late write', bound='%d scripts' % len(sc), chunk=2, min_outcomes=1))
     sc = session_scenarios(tier)
     out.append(Part('loopback-sessions', sc, run_tcp_session, what='whole device sessions over loopback TCP against the device model', bound='%d sessions (conformance runs, not exhaustive)' % len(sc),
-                    exhaustive=False, chunk=1, min_outcomes=1))
+                    exhaustive=False, chunk=1, min_outcomes=1, workers=4))
     return out
